@@ -30,10 +30,15 @@ BadMissing == Comp(Str(2, 0), H(32), Abs, Abs, Abs)
 SwArgs == {<<>>, <<OkA>>, <<OkB>>, <<OkA, OkB>>, <<OkB, OkA, OkA>>, <<BadLen>>, <<OkA, BadMissing>>, <<BadLen, OkB>>}
 Settable == {"implId", "instId", "bootSeed", "nonce", "lifecycle", "clientId", "certRef", "vsi"}
 Log(o) == hist' = Append(hist, o)
-SimInit == Init /\ hist = <<[op |-> "New", p |-> obj.p]>>
+\* (half of the behaviours contain outside assignments - Poke -, the other half end in a canonical replay)
+SimInit == Init /\ \E b \in BOOLEAN : hist = <<[op |-> "New", p |-> obj.p, poke |-> b]>>
 Last == hist[Len(hist)]
 Step ==
-  \/ \E c \in Settable : \E v \in ArgDom(obj.p, c) : Set(c, v) /\ Log([op |-> "Set", c |-> c, arg |-> v])
+  \/ \E c \in Settable : \E v \in ArgDom(obj.p, c) : Set(c, v) /\ Log([op |-> "Set", c |-> c, arg |-> v, held |-> FALSE])
+  \* the setter called with the very value the claims-set holds already (set earlier, or assigned from outside)
+  \/ \E c \in Settable, w \in 1..3 : /\ Present(obj[c])
+                                    /\ LET v == IF obj[c].k = "nonces" THEN obj[c].s[1] ELSE obj[c] IN
+                                       Set(c, v) /\ Log([op |-> "Set", c |-> c, arg |-> v, held |-> TRUE])
   \/ \E l \in SwArgs : SetSw(l) /\ Log([op |-> "SetSw", l |-> l, isnil |-> FALSE])
   \/ SetSwNil /\ Log([op |-> "SetSw", l |-> <<>>, isnil |-> TRUE])
   \/ \E l \in {<<OkA>>, <<OkB, OkA>>, <<BadLen>>} :
@@ -43,6 +48,12 @@ Step ==
        /\ obj' = [obj EXCEPT !.sw = SwV([obj.sw.l EXCEPT ![i][f] = v])]
        /\ ret' = RetRec("Ext", "sw", RetOK(Abs), Abs)
        /\ Log([op |-> "Ext", ix |-> i, f |-> f, arg |-> v])
+  \* outside assignment of a scalar claim field (valid, invalid or absent): the claims-set simply holds it afterwards
+  \/ \E c \in Settable : \E v \in ArgDom(obj.p, c) \cup {Abs} :
+       /\ hist[1].poke
+       /\ obj' = [obj EXCEPT ![c] = IF v = Abs THEN Abs ELSE Stored(obj.p, c, v)]
+       /\ ret' = RetRec("Ext", c, RetOK(Abs), Abs)
+       /\ Log([op |-> "Poke", c |-> c, arg |-> v])
 \* after Depth operations exactly one successor closes the behaviour
 Close == Len(hist) = Depth + 1 /\ Last.op # "End" /\ Log([op |-> "End"]) /\ UNCHANGED <<obj, ret>>
 SimNext == (Len(hist) <= Depth /\ Step) \/ Close
